@@ -27,7 +27,12 @@ pub(crate) fn pivot(n: usize, drawn: usize) -> usize {
         None => drawn,
         Some(hook) => {
             let chosen = hook(n, drawn);
-            assert!(chosen < n, "verif pivot hook returned {} for n = {}", chosen, n);
+            assert!(
+                chosen < n,
+                "verif pivot hook returned {} for n = {}",
+                chosen,
+                n
+            );
             chosen
         }
     })
